@@ -149,6 +149,7 @@ class Env:
         self.events = []
         self.parsers = []
         self.depth = 0
+        self.codes = {}
         self.sers = {id(css_parser.ser): 0}
         self.keep = [css_parser.ser]
         self.prefcodes = {}
@@ -156,6 +157,8 @@ class Env:
         if instrument:
             self._instrument()
         self.prefcode(css_parser.ser.prefs)   # default preference vector gets code 0
+        self.code("profile", self.profile_fp())
+        self.code("log", self.log_fp())
         # objects used by the serialisation operations, built while the process is still pristine
         self.sheets = [css_parser.parseString(t) for t in
                        ('a{x:1} a.c{y:2} b a{z:3}', '@media print{a{x:1} a b{y:2}} /*c*/ c{left:0.5px;color:#ffffff}',
@@ -217,6 +220,12 @@ class Env:
                 if not state["in_init"]:
                     ev.append(("alien", "tokenizer.clear outside ProdParser.__init__"))
                 s._pushed = []
+        orig_tinit = Tokenizer.__init__
+
+        def tinit(s, macros=None, productions=None, doComments=True):
+            ev.append(("tok", tok_spec_id(macros, MACRO_SPECS), tok_spec_id(productions, PROD_SPECS)))
+            orig_tinit(s, macros=macros, productions=productions, doComments=doComments)
+        Tokenizer.__init__ = tinit
         saved = RecList(pp.savedTokens)
         pp.savedTokens = saved
         pp.tokenizer.__class__ = RecTokenizer
@@ -302,20 +311,54 @@ class Env:
             pushed = list(p)
             pp.tokenizer._pushed = iter(pushed)
         ser = cp.ser
+        import css_parser.tokenize2 as tk2
         return {"saved": [list(t) for t in reversed(pp.savedTokens)], "pushed": [list(t) for t in pushed],
                 "raising": cp.log.raiseExceptions, "ser": self.ser_label(ser), "prefs": self.prefcode(ser.prefs),
-                "level": ser._level, "memo": len(ser._selectors), "sellevel": ser._selectorlevel,
-                "dx": sum(1 for x in prods.PRODUCTIONS if x is prods._DXImageTransform), "nprod": len(prods.PRODUCTIONS)}
+                "level": ser._level, "memo": len(ser._selectors or ()), "sellevel": ser._selectorlevel,
+                "dx": sum(1 for x in prods.PRODUCTIONS if x is prods._DXImageTransform), "nprod": len(prods.PRODUCTIONS),
+                "profile": self.code("profile", self.profile_fp()), "logcfg": self.code("log", self.log_fp()),
+                "cache": len(tk2._TOKENIZER_CACHE)}
+
+    def code(self, table, fp):
+        t = self.codes.setdefault(table, {})
+        key = json.dumps(fp, sort_keys=True, default=repr)
+        if key not in t:
+            t[key] = len(t)
+        return t[key]
+
+    def profile_fp(self):
+        pr = self.cp.profile
+        return [list(pr.profiles), list(pr.defaultProfiles or []), sorted(pr.knownNames)[:0] + [len(pr.knownNames)]]
+
+    def log_fp(self):
+        lg = LOGGER
+        return [lg.level, [type(h).__name__ for h in lg.handlers], self.cp.log.getEffectiveLevel()]
 
     def settings(self):
         """what the caller can observe (model-independent read-out for the oracle)"""
         cp = self.cp
         import css_parser.cssproductions as prods
         return [cp.log.raiseExceptions, id(cp.ser), sorted((k, repr(v)) for k, v in vars(cp.ser.prefs).items()),
-                [x[0] for x in prods.PRODUCTIONS]]
+                [x[0] for x in prods.PRODUCTIONS], self.profile_fp(), self.log_fp()]
 
 
-SETTERS = ("set_raise", "set_pref", "use_minified", "use_defaults", "set_ser", "set_dx", "new_parser", "log_handler")
+SETTERS = ("set_raise", "set_pref", "use_minified", "use_defaults", "set_ser", "set_dx", "new_parser", "log_handler",
+           "replace_prefs", "set_profile", "set_loglevel", "parser_loglevel")
+
+
+LOGGER = None
+MACRO_SPECS = {}      # name -> (dict, (names id, definitions id))
+PROD_SPECS = {}       # name -> (list, id)
+
+
+def tok_spec_id(value, specs):
+    """which of the known macro / production tables was passed to Tokenizer(...) (None = default)"""
+    if value is None:
+        return None
+    for name, (v, ident) in specs.items():
+        if v == value:
+            return name
+    return "?"
 
 
 def canon(v):
@@ -356,6 +399,34 @@ def do_op(env, op):
     elif k == "set_dx":
         import css_parser.settings
         css_parser.settings.set('DXImageTransform.Microsoft', True)
+    elif k == "replace_prefs":
+        cp.ser.prefs = cp.serialize.Preferences()
+        if op[1]:
+            cp.ser.prefs.useMinified()
+    elif k == "set_profile":
+        if op[1] == "add":
+            cp.profile.addProfile("x-prof", {"x-a": "red|green", "color": "blue"})
+        elif op[1] == "remove":
+            try:
+                cp.profile.removeProfile("x-prof")
+            except Exception:  # noqa
+                pass
+        else:
+            cp.profile.defaultProfiles = {"css2": cp.profile.CSS_LEVEL_2, "none": None,
+                                          "color": [cp.profile.CSS3_COLOR, cp.profile.CSS_LEVEL_2]}[op[1]]
+    elif k == "set_loglevel":
+        cp.log.setLevel(op[1])
+    elif k == "parser_loglevel":
+        cp.CSSParser(loglevel=op[1])
+    elif k == "tokenizer":
+        import css_parser.tokenize2 as tk2
+        m = MACRO_SPECS[op[1]][0] if op[1] else None
+        pr = PROD_SPECS[op[2]][0] if op[2] else None
+        t = tk2.Tokenizer(macros=m, productions=pr)
+        return canon([list(x) for x in t.tokenize(op[3], fullsheet=True)])
+    elif k == "valid":
+        pr = cp.css.Property(op[1], op[2])
+        return [pr.valid, canon(cp.parseStyle("%s: %s" % (op[1], op[2])).cssText)]
     elif k == "new_parser":
         cb = op[2] if len(op) > 2 else None
         idx = len(env.parsers)
@@ -434,6 +505,11 @@ CANARIES = [
     ["ser_sheet", 0], ["ser_rule", 0, 1], ["ser_sheet", 1], ["ser_style", 1, 2],
     ["csscombine", {"cssText": "a{color:red}"}],
     ["parseString", {"b": BYTES[1]}, None, None],
+    ["tokenizer", None, None, "a{b:1px} /*x*/ @media x"],
+    ["tokenizer", "alt", None, "a{b:1px} q9 -x"],
+    ["tokenizer", "default", "default", "a{b:1px}"],
+    ["tokenizer", None, "short", "a{b:1px} 'x'"],
+    ["valid", "color", "red"], ["valid", "x-a", "green"], ["valid", "color", "blue"],
 ]
 SER_CANARIES = {14, 15, 16, 17}
 
@@ -460,7 +536,8 @@ def run_history(task):
         if op[0] not in SETTERS:
             after = env.settings()
             if after != before:
-                names = ["log.raiseExceptions", "css_parser.ser", "css_parser.ser.prefs", "PRODUCTIONS"]
+                names = ["log.raiseExceptions", "css_parser.ser", "css_parser.ser.prefs", "PRODUCTIONS", "css_parser.profile",
+                         "css_parser.log level/handlers"]
                 step["settings_changed"] = [n for n, a, b in zip(names, before, after) if a != b]
         out["steps"].append(step)
     if task.get("reset_memo"):
@@ -542,8 +619,14 @@ def gen_op(rng, indent_ok, nparsers, reentrant=False):
             return [rng.choice(["use_minified", "use_defaults"])]
         if k < 0.8:
             return ["set_ser", rng.choice([True, False])]
-        if k < 0.86:
+        if k < 0.84:
             return ["set_dx"]
+        if k < 0.87:
+            return ["replace_prefs", rng.choice([True, False])]
+        if k < 0.91:
+            return ["set_profile", rng.choice(["add", "remove", "css2", "none", "color"])]
+        if k < 0.94:
+            return rng.choice([["set_loglevel", rng.choice([10, 40, 50])], ["parser_loglevel", rng.choice([20, 50])]])
         return ["new_parser", rng.choice([False, False, True])]
     if r < 0.34:
         k = rng.random()
@@ -576,6 +659,11 @@ def gen_op(rng, indent_ok, nparsers, reentrant=False):
         if rng.random() < 0.2:
             kw["sourceencoding"] = rng.choice(["ascii", "bogus", "utf-8"])
         return ["csscombine", kw]
+    if r < 0.58:
+        return ["tokenizer", rng.choice([None, None, "default", "alt", "other"]), rng.choice([None, None, "default", "short"]),
+                rng.choice(["a{b:1px}", "q9 'x' @media", "/*c*/ -x \\41 "])]
+    if r < 0.62:
+        return ["valid", rng.choice(["color", "x-a", "left", "bogus"]), rng.choice(["red", "green", "blue", "1px", "$"])]
     label = rng.choice(LABELS)
     _, p1, p2 = TARGETS[label]
     return ["obj", label, rng.choice(p1), rng.choice(p2) if p2 else None]
@@ -621,7 +709,11 @@ def gen_history(rng, maxlen, indent_ok, reentrant=False):
 
 def all_single_ops():
     """every operation of the alphabet once (exhaustive-small stream, length 1; pairs are built from these)"""
-    ops = [["set_raise", False], ["use_minified"], ["set_ser", True], ["set_dx"], ["new_parser", False], ["new_parser", True]]
+    ops = [["set_raise", False], ["use_minified"], ["set_ser", True], ["set_dx"], ["new_parser", False], ["new_parser", True],
+           ["replace_prefs", True], ["set_loglevel", 10], ["parser_loglevel", 20]]
+    ops += [["set_profile", x] for x in ("add", "remove", "css2", "none", "color")]
+    ops += [["tokenizer", m, pr, "a{b:1px} q9 'x'"] for m in (None, "default", "alt", "other") for pr in (None, "default", "short")]
+    ops += [["valid", n, v] for n in ("color", "x-a", "bogus") for v in ("red", "green", "$")]
     ops += [["set_pref", n, v] for n, v in PREFS[:6]]
     for label in LABELS:
         _, p1, p2 = TARGETS[label]
@@ -687,10 +779,19 @@ def to_model(hist, res):
         return "%d%%N" % toks[key]
 
     def g(c, nparsers):
-        return "(mkG [%s] [%s] %s %d%%N %d%%N (%d)%%Z %d%%N (%d)%%Z %s [%s])" % (
+        return "(mkG [%s] [%s] %s %d%%N %d%%N (%d)%%Z %d%%N (%d)%%Z %s [%s] %d%%N %d%%N [%s])" % (
             "; ".join(tok(t) for t in c["saved"]), "; ".join(tok(t) for t in c["pushed"]), coq_bool(c["raising"]),
             c["ser"], c["prefs"], c["level"], c["memo"], c["sellevel"], coq_bool(c["dx"] > 0),
-            "; ".join(["(true, true)"] * nparsers))
+            "; ".join(["(true, true)"] * nparsers), c["profile"], c["logcfg"],
+            "; ".join(["((None, None), ((0, 0), 0))%N"] * c["cache"]))
+
+    def tokarg(name, specs, pair):
+        if name is None:
+            return "None"
+        if name == "?" or name not in specs:
+            raise Untranslatable("Tokenizer constructed with an unknown table")
+        ident = specs[name][1]
+        return "(Some (%d, %d)%%N)" % ident if pair else "(Some %d%%N)" % ident
 
     def script(items, exc, tail=()):
         out = []
@@ -706,6 +807,8 @@ def to_model(hist, res):
                 out.append("Do (EvPush %s)" % tok(e[1]))
             elif e[0] == "take":
                 out.append("Do EvTake")
+            elif e[0] == "tok":
+                out.append("Do (EvTok %s %s)" % (tokarg(e[1], MACRO_SPECS, True), tokarg(e[2], PROD_SPECS, False)))
             elif e[0] == "alien":
                 raise Untranslatable("stash cleared outside ProdParser.__init__: %r" % (e,))
             elif e[0] == "nest":
@@ -750,7 +853,11 @@ def to_model(hist, res):
             indent_on = prev["prefs"] % 2 == 1
             if k == "set_raise":
                 call = "CSetRaising %s" % coq_bool(op[1])
-            elif k in ("set_pref", "use_minified", "use_defaults"):
+            elif k in ("set_profile",):
+                call = "CSetProfile %d%%N" % c["profile"]
+            elif k in ("set_loglevel", "parser_loglevel", "log_handler"):
+                call = "CSetLog %d%%N" % c["logcfg"]
+            elif k in ("set_pref", "use_minified", "use_defaults", "replace_prefs"):
                 call = "CSetPrefs %d%%N" % c["prefs"]
                 if st["exc"]:
                     return None, "a settings operation raised"
@@ -761,8 +868,6 @@ def to_model(hist, res):
             elif k == "new_parser":
                 call = "CNewParser %s" % coq_bool(op[1])
                 nparsers += 1
-            elif k == "log_handler":
-                call = "CPlain (script [Ret])"          # logging configuration: no cell of the model
             else:
                 op2 = list(op)
                 if k.startswith("parse") and op2[-1] is not None and op2[-1] >= nparsers:
@@ -885,6 +990,15 @@ def setup_globals():
     silent.propagate = False
     css_parser.log.setLog(silent)
     css_parser.log.setLevel(logging.FATAL)
+    global LOGGER
+    LOGGER = silent
+    import css_parser.cssproductions as cpr
+    alt = dict(cpr.MACROS)
+    alt["nmstart"] = "[_a-z]|{nonascii}|{escape}|[0-9]"          # same names, another definition
+    other = dict(cpr.MACROS)
+    other["extra"] = "x"                                          # another set of names
+    MACRO_SPECS.update({"default": (dict(cpr.MACROS), (0, 0)), "alt": (alt, (0, 1)), "other": (other, (1, 2))})
+    PROD_SPECS.update({"default": (list(cpr.PRODUCTIONS), 0), "short": ([x for x in cpr.PRODUCTIONS if x[0] != "STRING"], 2)})
     WORK.mkdir(parents=True, exist_ok=True)
     ok = WORK / "ok.css"
     bad = WORK / "bad.css"
@@ -933,7 +1047,7 @@ def run(ctx):
     reent = reentrant_histories()
     hists += reent
     # exhaustive pairs: (every call that can leave something behind) x (every call), thorough: all pairs
-    contaminators = [op for op in singles if op[0] == "obj" and op[1].startswith(("MediaQuery", "MediaList"))
+    contaminators = [op for op in singles if op[0] in ("tokenizer", "set_dx") or op[0] == "obj" and op[1].startswith(("MediaQuery", "MediaList"))
                      or op[0] in ("csscombine", "parseFile") or (op[0] == "parseString" and isinstance(op[1], dict))]
     if thorough:
         pairs = [[a, b2] for a in contaminators[::2] for b2 in singles[ctx.seed % 12::12]]
@@ -949,7 +1063,7 @@ def run(ctx):
     terms, idx, untranslatable = [], [], []
     for i, (h, r) in enumerate(zip(hists, traced)):
         if r["start"] != {"saved": [], "pushed": [], "raising": True, "ser": 0, "prefs": 0, "level": 0, "memo": 0,
-                          "sellevel": 0, "dx": 0, "nprod": r["start"]["nprod"]}:
+                          "sellevel": 0, "dx": 0, "nprod": r["start"]["nprod"], "profile": 0, "logcfg": 0, "cache": 1}:
             ctx.broken("correspondence", "initial state is not G0", json.dumps(r["start"]))
             break
         t, why = to_model(h, r)
